@@ -105,10 +105,13 @@ Fixpoint ret_remove (p : list lvl) (n : node) : node :=
           Node (nsubs n) (nret n) (if is_empty c' then delk l (nkids n) else setk l c' (nkids n))
       end
   end.
-(* provider.retain: empty payload removes; QoS 0 removes then inserts; otherwise overwrites *)
-Definition retain (p : list lvl) (m : msg) (empty_payload : bool) (n : node) : node :=
+(* provider.retain: empty payload removes; otherwise overwrites.  A QoS 0 publish is "discard what was retained,
+   then store the new one" [MQTT-3.3.1-7]: topics/mem does the two steps under its one lock ([overwrite] = false);
+   the lock-free index, whose readers take no lock, stores the new message over the old one in ONE step
+   ([overwrite] = true) - between a remove and an insert its readers would find the topic without a message *)
+Definition retain (p : list lvl) (m : msg) (empty_payload overwrite : bool) (n : node) : node :=
   if empty_payload then ret_remove p n
-  else if m_qos m =? 0 then ret_insert p m (ret_remove p n)
+  else if (m_qos m =? 0) && negb overwrite then ret_insert p m (ret_remove p n)
   else ret_insert p m n.
 
 (* ---- subscriptionSearch ---- *)
@@ -172,12 +175,12 @@ Definition ret_search_top (f : list lvl) (root : node) : list msg :=
 Inductive op :=
 | OSub (f : list N) (s : N) (sp : sparams)
 | OUnsub (f : list N) (s : N)
-| ORetain (t : list N) (m : msg) (empty_payload : bool).
+| ORetain (t : list N) (m : msg) (empty_payload overwrite : bool).
 
 Definition step (n : node) (o : op) : node :=
   match o with
   | OSub f s sp => fst (insert (split f) s sp n)
   | OUnsub f s => fst (remove (split f) s n)
-  | ORetain t m e => retain (split t) m e n
+  | ORetain t m e ow => retain (split t) m e ow n
   end.
 Definition run (h : list op) : node := fold_left step h empty_node.
